@@ -50,15 +50,41 @@ Definition trilinear_f (a p q d00 u00 d01 u01 d10 u10 d11 u11 : float) : float :
   let f11 := lerp_f a d11 u11 in
   bilin_f p q f00 f01 f10 f11.
 
+(** the whole kernel for one particle: positions X, Y with their cell indices, weight a, eight node values *)
+Definition kernel_f (X : float) (i : Z) (Y : float) (j : Z) (a d00 u00 d01 u01 d10 u10 d11 u11 : float) : float :=
+  trilinear_f a (frac_f X i) (frac_f Y j) d00 u00 d01 u01 d10 u10 d11 u11.
+
+(** ** Computable side conditions (the hypotheses of the theorems in Proofs/TrilinearFloatProofs.v as booleans) *)
+Definition two1000 : float := Z.ldexp 1 1000.
+Definition two52 : float := Z.ldexp 1 52.
+(** a weight: finite and in [0, 1] *)
+Definition unit_ok (x : float) : bool := is_finite x && (0 <=? x) && (x <=? 1).
+(** a node value: finite and bounded by [m] in absolute value *)
+Definition val_ok (m x : float) : bool := is_finite x && (abs x <=? m).
+Definition hyps_ok (a p q d00 u00 d01 u01 d10 u10 d11 u11 m : float) : bool :=
+  unit_ok a && unit_ok p && unit_ok q &&
+  val_ok m d00 && val_ok m u00 && val_ok m d01 && val_ok m u01 &&
+  val_ok m d10 && val_ok m u10 && val_ok m d11 && val_ok m u11 &&
+  is_finite m && (m <=? two1000).
+(** a position and its cell index: finite, 0 <= x < 2^52, i <= x < i + 1 *)
+Definition frac_ok (x : float) (i : Z) : bool :=
+  is_finite x && (0 <=? x) && (x <? two52) && in_cell x i && (0 <=? i)%Z && (i <? 2 ^ 53 - 1)%Z.
+Definition kernel_ok (X : float) (i : Z) (Y : float) (j : Z) (a d00 u00 d01 u01 d10 u10 d11 u11 m : float) : bool :=
+  frac_ok X i && frac_ok Y j && unit_ok a &&
+  val_ok m d00 && val_ok m u00 && val_ok m d01 && val_ok m u01 &&
+  val_ok m d10 && val_ok m u10 && val_ok m d11 && val_ok m u11 &&
+  is_finite m && (m <=? two1000).
+
 (** ** IEEE-754 binary64 bit patterns
 
     A pattern is a non-negative integer below 2^64: sign (1 bit), biased exponent (11 bits), fraction (52 bits).
-    [sf_of_bits] decodes it into Coq's specification-level float, [float_of_bits] turns that into a primitive
+    [sf_of_bits] decodes it into Coq's specification-level float (with bit operations and literal
+    constants, so that it is fast under [vm_compute]), [float_of_bits] turns that into a primitive
     float with [SF2Prim] (one [of_uint63], one [ldexp], one optional negation).  All NaN patterns give [nan]. *)
 Definition sf_of_bits (z : Z) : spec_float :=
-  let s := (2 ^ 63 <=? z)%Z in
-  let m := (z mod 2 ^ 52)%Z in
-  let e := ((z / 2 ^ 52) mod 2 ^ 11)%Z in
+  let s := (9223372036854775808 <=? z)%Z in                       (* 2^63 <= z *)
+  let m := Z.land z 4503599627370495 in                          (* z mod 2^52 *)
+  let e := Z.land (Z.shiftr z 52) 2047 in                        (* (z / 2^52) mod 2^11 *)
   if (e =? 0)%Z then
     match m with
     | Zpos pm => S754_finite s pm (-1074)
@@ -70,7 +96,7 @@ Definition sf_of_bits (z : Z) : spec_float :=
     | _ => S754_nan
     end
   else
-    match (m + 2 ^ 52)%Z with
+    match (m + 4503599627370496)%Z with                           (* the implicit leading bit 2^52 *)
     | Zpos pm => S754_finite s pm (e - 1075)
     | _ => S754_nan
     end.
@@ -79,13 +105,13 @@ Definition float_of_bits (z : Z) : float := SF2Prim (sf_of_bits z).
 
 (** the inverse: the bit pattern of a primitive float (the canonical quiet NaN for [nan]) *)
 Definition bits_of_sf (x : spec_float) : Z :=
-  let sb (s : bool) := if s then (2 ^ 63)%Z else 0%Z in
+  let sb (s : bool) := if s then 9223372036854775808%Z else 0%Z in          (* 2^63 *)
   match x with
   | S754_zero s => sb s
-  | S754_infinity s => (sb s + 2047 * 2 ^ 52)%Z
-  | S754_nan => (2047 * 2 ^ 52 + 2 ^ 51)%Z
+  | S754_infinity s => (sb s + 9218868437227405312)%Z                         (* 2047 * 2^52 *)
+  | S754_nan => 9221120237041090560%Z                                         (* 2047 * 2^52 + 2^51 *)
   | S754_finite s m e =>
-      if (2 ^ 52 <=? Zpos m)%Z then (sb s + (e + 1075) * 2 ^ 52 + (Zpos m - 2 ^ 52))%Z
+      if (4503599627370496 <=? Zpos m)%Z then (sb s + (e + 1075) * 4503599627370496 + (Zpos m - 4503599627370496))%Z
       else (sb s + Zpos m)%Z
   end.
 
@@ -126,6 +152,7 @@ Proof. vm_compute. reflexivity. Qed.
 Example trilinear_mid :
   same_bits (trilinear_f 0.25 0.5 0.5 1 3 1 3 1 3 1 3) 2.5 = true.
 Proof. vm_compute. reflexivity. Qed.
+#[local] Set Warnings "-inexact-float".
 (** one rounding per operation: 0.1 * 0.3 + 0.9 * 0.7 in binary64 *)
 Example lerp_rounds : bits_of_float (lerp_f 0.1 0.3 0.7) = 4604119971053405471%Z.
 Proof. vm_compute. reflexivity. Qed.
